@@ -1030,6 +1030,26 @@ def _m_concatenate(seq, axis=0, **k):
     seq = list(seq)
     if all(isinstance(s, np.ndarray) for s in seq):
         return np.concatenate([np.asarray(s, dtype=object) for s in seq], axis=axis)
+    if all(isinstance(s, (SymArray, np.ndarray)) for s in seq) and axis == 0:
+        from .shims import _used
+
+        _used("np.concatenate of 1-D arrays: piecewise by cumulative lengths")
+        parts = [s if isinstance(s, SymArray) else SymArray.from_concrete(s) for s in seq]
+        srt = "real" if any(p.sort == "real" for p in parts) else parts[0].sort
+        offs = [0]
+        for p in parts:
+            offs.append(offs[-1] + p.n)
+        offt = [iterm(o) for o in offs]
+        fs = [p._elem for p in parts]
+
+        def elem(i):
+            r = _coerce_sort(fs[-1](i - offt[len(parts) - 1]), srt) if srt == "real" else fs[-1](i - offt[len(parts) - 1])
+            for q in range(len(parts) - 2, -1, -1):
+                v = fs[q](i - offt[q])
+                r = z3.If(i < offt[q + 1], _coerce_sort(v, srt) if srt == "real" else v, r)
+            return r
+
+        return SymArray(offs[-1], elem, srt)
     raise EngineLimit("np.concatenate of symbolic-length arrays")
 
 
@@ -1197,9 +1217,23 @@ def CONSTRUCTOR_MODELS():
         (np, "array", _m_array),
         (np, "asarray", _m_asarray),
         # numpy's own isclose/allclose call isfinite, which object arrays of proxies do not support
+        (np, "argmax", _m_argmax),
         (np, "isclose", _lazy_shim("_isclose")),
         (np, "allclose", _lazy_shim("_allclose")),
     ]
+
+
+def _m_argmax(a, *x, **k):
+    """np.argmax of a 1-D object array of (symbolic) booleans: index of the first True (0 if none)"""
+    from .shims import _used
+
+    if isinstance(a, np.ndarray) and a.ndim == 1 and a.dtype == object:
+        _used("np.argmax of a boolean array: index of the first True entry (0 if there is none)")
+        r = z3.IntVal(0)
+        for q in range(len(a) - 1, -1, -1):
+            r = z3.If(sym._bterm(a[q]), z3.IntVal(q), r)
+        return concrete(SymInt(r))
+    raise EngineLimit("np.argmax of a proxy array")
 
 
 def _lazy_shim(name):
